@@ -150,6 +150,71 @@ fn encode_sig(base: &V, b: u8, a: char) -> Result<Option<u8>, String> {
     }
 }
 
+/// MSM1 frame with two signal-mask bits: recognised position p carrying the only cell, and
+/// position u (not in the table) whose column is empty
+fn frame_with_unassigned_column(c: usize, p: u8, u: u8) -> Vec<u8> {
+    let n = 1071 + 10 * c as u16;
+    let mut b = bits::BitBuf::new();
+    b.push(n as u128, 12);
+    b.push(0, 61);
+    b.push(1u128 << (64 - 9), 64);
+    b.push((1u128 << (32 - p as u32)) | (1u128 << (32 - u as u32)), 32);
+    // one satellite x two signals: cell mask has 2 bits in position order
+    if u < p {
+        b.push(0b01, 2);
+    } else {
+        b.push(0b10, 2);
+    }
+    b.push(0x2AA, 10);
+    b.push(0x0FED, 15);
+    crc::frame(&b.into_bytes())
+}
+
+/// a position's descriptor must not depend on which other (unused) mask bits are set: the
+/// decoder may reject such a frame (Corrupt) but must not report another descriptor
+fn check_unassigned_columns(ctx: &mut Ctx, c: usize) {
+    let cn = sig::CONSTELLATIONS[c];
+    for p in sig::positions(c) {
+        for u in 1..=32u8 {
+            if sig::pos_to_sig(c, u).is_some() {
+                continue;
+            }
+            ctx.eval();
+            let f = frame_with_unassigned_column(c, p, u);
+            let m = match guard(|| MessageFrame::new(&f).ok().map(|mf| mf.get_message())) {
+                Ok(Some(m)) => m,
+                _ => continue,
+            };
+            if matches!(m, Message::Corrupt) {
+                ctx.count("frames_with_unassigned_mask_bit_rejected");
+                continue;
+            }
+            ctx.count("frames_with_unassigned_mask_bit_decoded");
+            let mut found: Option<(u8, char)> = None;
+            if let Ok(mut vv) = vtree::to_v(&m) {
+                crate::mutate::walk_mut(&mut vv, ("", ""), &mut |node, site, _| {
+                    if site == crate::mutate::Site::Sig {
+                        if let V::TupleStruct(_, xs) = node {
+                            if let (V::U8(b), V::Char(a)) = (&xs[0], &xs[1]) {
+                                found = Some((*b, *a));
+                            }
+                        }
+                    }
+                });
+            }
+            let exp = sig::pos_to_sig(c, p);
+            if found != exp {
+                ctx.violation(
+                    format!("C18.position_to_descriptor|{}|with_unassigned_mask_bit", cn),
+                    "C18.position_to_descriptor",
+                    format!("{}: cell at signal-mask position {} decodes as {:?} (reference {:?}) when the unused, unassigned position {} is also set in the mask", cn, p, found, exp, u),
+                    json!({"kind":"unassigned_column","constellation":c,"pos":p,"other":u}),
+                );
+            }
+        }
+    }
+}
+
 fn rv(c: usize, b: u8, a: char) -> Value {
     json!({"kind":"descriptor","constellation":c,"band":b,"attr":a as u32})
 }
@@ -285,6 +350,7 @@ pub fn run(p: &Params) -> Outcome {
             let band = (j % 256) as u8;
             // the position sweep is part of job band 0
             let base = if band == 0 {
+                check_unassigned_columns(ctx, c);
                 base_for(ctx, c)
             } else {
                 // cheap: rebuild the base from the first recognised reference position
@@ -423,6 +489,7 @@ pub fn replay(_p: &Params, v: &Value) -> Outcome {
         "position" => {
             base_for(&mut ctx, c);
         }
+        "unassigned_column" => check_unassigned_columns(&mut ctx, c),
         "triple" => check_order(&mut ctx, c, d(&v["x"]), d(&v["y"]), d(&v["z"])),
         k => ctx.inconclusive(format!("unknown replay kind {}", k)),
     }
